@@ -50,6 +50,17 @@ def make_env(root):
     return os.path.join(v, "bin", "python"), base
 
 
+def make_alias_pkg(base, pkg):
+    """The same hierarchy, but every class is re-exported under a public alias (`from m import PClass as P`, `__all__ = ['P']`)"""
+    pub = {n: n.title() for n, _ in HIER}
+    write(os.path.join(base, "__init__.py"), "from {p}.gen import *\n\n__author__ = 'a'\n__version__ = '0.0.0'\n__all__ = {a!r}\n".format(p=pkg, a=["__author__", "__version__"] + sorted(pub.values())))
+    write(os.path.join(base, "gen", "__init__.py"), "".join("from {p}.gen.{m} import {a}\n".format(p=pkg, m=".".join(f), a=pub[n]) for n, f in HIER) + "\n__all__ = {!r}\n".format(sorted(pub.values())))
+    for n, f in HIER:
+        cls = n.title() + "Class"
+        write(os.path.join(base, "gen", *f, "__init__.py"), "from {p}.gen.{m}.{n} import {c} as {a}\n\n__all__ = [{a!r}]\n".format(p=pkg, m=".".join(f), n=n, c=cls, a=pub[n]))
+        write(os.path.join(base, "gen", *f, n + ".py"), "# hand-written comment that a rewrite would lose\n" + CLASS_SRC.format(cls=cls))
+
+
 def make_pkg(base, pkg):
     names = [n for n, _ in HIER]
     write(os.path.join(base, "__init__.py"), "from {p}.gen import *\n\n__author__ = 'a'\n__version__ = '0.0.0'\n__all__ = {a!r}\n".format(p=pkg, a=["__author__", "__version__"] + names))
@@ -239,6 +250,31 @@ def main(tier):
                 bad = check_generated(out)
                 if bad:
                     res["failures"].append(dict(case, what="generated output: %s" % bad[:3]))
+        # ---- a package whose classes are re-exported under public aliases, in a plain directory on PYTHONPATH
+        PKG3 = "cddvcalias"
+        base3 = os.path.join(plain_root, PKG3)
+        make_alias_pkg(base3, PKG3)
+        for emit, recursive in itertools.product(all_emits if tier != "quick" else ["class", "sqlalchemy_table"], (True, False)):
+            k += 1
+            out = os.path.join(root, "worka%d" % k, "exposed")
+            args = ["--module", PKG3 + ".gen", "--emit", emit, "--output-directory", out] + (["--recursive"] if recursive else [])
+            before = snapshot(root)
+            rc, tail = run_exmod(py, args, root, extra_path=plain_root)
+            d = diff(before, snapshot(root))
+            res["runs"] += 1
+            case = {"emit": emit, "recursive": recursive, "dry_run": False, "preexisting_out": False, "lists": "", "rc": rc, "placement": "plain directory on PYTHONPATH, classes re-exported under aliases"}
+            if rc != 0:
+                res["crashes"] += 1
+            src_touched = [x for x in d if x.split(" ", 1)[1].startswith(base3)]
+            if src_touched:
+                res["failures"].append(dict(case, what="source package modified: %s" % [x.replace(root, "<tmp>") for x in src_touched[:3]]))
+            outside = [x for x in d if not x.split(" ", 1)[1].startswith(out) and x.split(" ", 1)[1] != os.path.dirname(out) and not x.split(" ", 1)[1].startswith(base3)]
+            if outside:
+                res["failures"].append(dict(case, what="real run touched paths outside the output directory: %s" % [x.replace(root, "<tmp>") for x in outside[:4]]))
+            if rc == 0 and os.path.isdir(out):
+                bad = check_generated(out)
+                if bad:
+                    res["failures"].append(dict(case, what="generated output: %s" % [b.replace(root, "<tmp>") for b in bad[:3]]))
     finally:
         shutil.rmtree(root, ignore_errors=True)
     print(json.dumps(res))
